@@ -2,7 +2,9 @@
    Proofs: L4_Eval/OverlapProofs.v (overlap), L4_Eval/EvalProofs.v (purity of a rejected evaluation). *)
 From Coq Require Import List Permutation String.
 Local Open Scope string_scope.
-From DDS Require Import Base.Bytes L4_Eval.Overlap L4_Eval.OverlapProofs.
+From Coq Require Import ZArith NArith.
+From DDS Require Import Base.Bytes L4_Eval.Overlap L4_Eval.OverlapProofs L2_Disc.Cycle L2_Disc.CycleProofs
+     L0_Hash.PyVal L3_Sig.Program L4_Eval.DdsEval L4_Eval.EvalProofs.
 Import ListNotations.
 
 (* Overlap detection: the verdict is "rejected" exactly when some kept path is a strict segment-prefix of another,
@@ -23,3 +25,31 @@ Print Assumptions C11_overlap_order_independent.
 Theorem C11_nonadjacent : non_terminal_leaves [[bs "f"]; [bs "g"]; [bs "f"; bs "h"]] <> [].
 Proof. exact overlap_nonadjacent. Qed.
 Print Assumptions C11_nonadjacent.
+
+(* Call cycles and nested dds.eval: the analysis rejects exactly the graphs in which a cycle (through plain calls, keeps,
+   by-name references or methods, of any length) or a dds.eval is reachable from the root, whatever the depth; the
+   completion cache never hides a cycle and the traversal always terminates. *)
+Theorem C11_rejected_iff : forall g root, closed_graph g -> In root (map fst g) ->
+  ((analyse_graph g root = VCircular \/ analyse_graph g root = VEvalInEval) <-> (cyclic_from g root \/ eval_from g root)).
+Proof. exact rejected_iff. Qed.
+Print Assumptions C11_rejected_iff.
+
+Theorem C11_circular_sound : forall g root, analyse_graph g root = VCircular -> cyclic_from g root.
+Proof. exact circular_sound. Qed.
+Print Assumptions C11_circular_sound.
+
+Theorem C11_terminates : forall g root, closed_graph g -> In root (map fst g) -> analyse_graph g root <> VFuel.
+Proof. exact fuel_suffices. Qed.
+Print Assumptions C11_terminates.
+
+(* the case missed before fix 2a32f0d: a function passing itself by name *)
+Theorem C11_self_reference : analyse_graph [(bs "f", [ETo KRef (bs "f")])] (bs "f") = VCircular.
+Proof. exact self_reference. Qed.
+Print Assumptions C11_self_reference.
+
+(* A rejected evaluation executes no user function and leaves blobs and paths untouched: the result is the error and
+   the very same state (store and execution log). *)
+Theorem C11_rejected_is_pure : forall H mx c f sty pos kw s o,
+  analysis H mx c f sty pos kw s = inl o -> dds_call H mx c f sty pos kw s = (o, s).
+Proof. exact rejected_is_pure. Qed.
+Print Assumptions C11_rejected_is_pure.
